@@ -34,7 +34,7 @@ STATE_MEASURE = "distinct (image digest, operation history) hashes"
 COMPONENTS = {"real": ["smpl_extract (lazy children/files/SAT realisation, memoisation, in-place renaming, data-stream cursors)"],
               "stub": ["SimFile / virtual FS input with a write monitor", "sandboxed output"]}
 ASSUMPTIONS = ["history length <= 12", "reference = a fresh image object per operation over identical bytes"]
-EXPECTED_PROBES = ["export_after_export", "leaf_before_parent", "export_before_any_ls", "invalid_path_first", "akai", "roland", "cdda", "ls_after_export", "positional_path", "library_touch", "same_tail_different_parent"]
+EXPECTED_PROBES = ["export_after_export", "leaf_before_parent", "export_before_any_ls", "invalid_path_first", "akai", "roland", "cdda", "ls_after_export", "positional_path", "library_touch", "same_tail_different_parent", "other_disc_first"]
 SHRINK = {"max_attempts": 120, "max_seconds": 120.0, "simple_values": {"policy": ["contiguous"], "block": [4096]}}
 
 
@@ -101,6 +101,10 @@ def gen(rng: random.Random, tier: str, index: int) -> dict:
         ops[at:at] = [["ls", a], ["ls", b]] + ([["ls", a]] if rng.random() < 0.3 else [])
         sc["twin_paths"] = True
     sc["ops"] = ops
+    if fmt in ("akai", "roland") and index % 4 == 1:
+        # before the image under test is touched, the same process lists and exports ANOTHER disc of identical layout and
+        # different audio; the references are computed in a forked child that never sees that other disc
+        sc["decoy"] = True
     return sc
 
 
@@ -141,6 +145,72 @@ def _open(sc: dict):
     binsf = SimFile(C.bin_bytes(m))
     vfs = VirtualFS({"/vfs/d.cue": C.cue_text(m).encode(), "/vfs/" + m["bin_name"]: binsf})
     return "/vfs/d.cue", [binsf], vfs.installed()
+
+
+def _decoy_model(sc: dict) -> dict:
+    import copy
+    m = copy.deepcopy(sc["model"])
+    if sc["fmt"] == "akai":
+        for p in m["partitions"]:
+            for v in p["volumes"]:
+                for f in v["files"]:
+                    if "key" in f:
+                        f["key"] += ".decoy"
+    else:
+        for sm in m["samples"]:
+            sm["key"] += ".decoy"
+    return m
+
+
+def _refs_in_child(sc: dict, ops: List[list], sb: Sandbox) -> Dict[str, tuple]:
+    """Reference results (fresh image per operation) computed in a forked child, so that nothing this process does afterwards
+    (the decoy disc) and nothing the child does can influence the other side."""
+    import json as _json
+    import os as _os
+    import select as _select
+    import struct as _struct
+    import time as _time
+    from ..core import HarnessError
+    rfd, wfd = _os.pipe()
+    pid = _os.fork()
+    if pid == 0:
+        try:
+            _os.close(rfd)
+            out = {}
+            for n, op in enumerate(ops):
+                key = digest_of(op)
+                if key not in out:
+                    out[key] = list(_fresh(sc, op, sb, 1000 + n))
+            blob = _json.dumps(out).encode()
+            blob = _struct.pack("<I", len(blob)) + blob
+            while blob:
+                k = _os.write(wfd, blob)
+                blob = blob[k:]
+        except BaseException:      # noqa: BLE001 - reported by the parent as a missing result
+            pass
+        finally:
+            _os._exit(0)
+    _os.close(wfd)
+    buf = b""
+    deadline = _time.monotonic() + 600
+    while _time.monotonic() < deadline:
+        r, _, _ = _select.select([rfd], [], [], 1.0)
+        if not r:
+            continue
+        chunk = _os.read(rfd, 1 << 16)
+        if not chunk:
+            break
+        buf += chunk
+    _os.close(rfd)
+    try:
+        _os.kill(pid, 9)
+    except OSError:
+        pass
+    _os.waitpid(pid, 0)
+    if len(buf) < 4 or len(buf) < 4 + _struct.unpack("<I", buf[:4])[0]:
+        return {}
+    doc = _json.loads(buf[4:4 + _struct.unpack("<I", buf[:4])[0]])
+    return {k: tuple(v) for k, v in doc.items()}
 
 
 def _fresh(sc: dict, op: list, sb: Sandbox, n: int):
@@ -193,6 +263,19 @@ def run(sc: dict) -> RunResult:
             listed.add(p)
     with Sandbox("c16") as sb, knobs(sc.get("block", 4096)), StepClock(600_000_000) as clk:
         ref_cache: Dict[str, tuple] = {}
+        if sc.get("decoy") and all(o[0] in ("ls", "export") for o in ops):
+            ref_cache = _refs_in_child(sc, [o for o in ops if o[0] in ("ls", "export")], sb)
+            if not ref_cache and any(o[0] in ("ls", "export") for o in ops):
+                res.add(PROP, "no_result", "the reference arm (fresh image per operation, forked child) produced no result")
+            else:
+                res.probes["other_disc_first"] += 1
+                dsc = dict(sc, model=_decoy_model(sc))
+                dt, _dsfs, dcm = _open(dsc)
+                with dcm:
+                    dimg, _ = tool.open_image(dt)
+                    if dimg is not None:
+                        tool.run_ls(dimg, "")
+                        tool.run_export(dimg, sb, "decoy")
         target, sfs, cm = _open(sc)
         digests0 = [s.content_digest() for s in sfs]
         hist = []
